@@ -192,6 +192,7 @@ theorem find_cons_eq {α : Type} (xs : List (Nat × α)) (a : Nat) (x : α) :
   simp
 
 section
+set_option linter.unusedSectionVars false
 variable (dry isTxKind : Nat → Bool) (sh : Shared) (E : Events.S) (j : Job) (rg : Regs) (ph ph' : EPh)
   (hj : JobOK dry isTxKind j) (hL : LInv sh E j rg ph) (hLT : LT sh E ph.al) (hG : Glob sh E)
 include hj hL hLT hG
@@ -340,6 +341,196 @@ theorem step_fin (hids : Chain.idsOk 0 sh.store) (ok : Bool) (cls : String) (hph
           have ha : rg.answer = some t := by rw [hL.ansP hc.1, ht1]
           exact key E (by simp [evsOf, runOn, Events.step, hd, hent, ha, ht2]) ⟨E.acked, rfl⟩ (Option.some.inj hph)
         · cases hph
+
+
+theorem step_readIk (key : String) (v : Via) (hen : enabled sh j rg (.act (.readIk key) .ok v) = true)
+    (hph : estep' j.ep ph (.act (.readIk key) .ok v) = some ph') :
+    StepOK dry isTxKind sh E j rg (.act (.readIk key) .ok v) ph' := by
+  simp only [estep'] at hph
+  split at hph
+  · cases hph
+  rename_i hc
+  simp only [Bool.or_eq_true, bne_iff_ne, ne_eq, not_or, Bool.not_eq_true, Decidable.not_not] at hc
+  obtain rfl := Option.some.inj hph
+  simp only [enabled] at hen
+  obtain ⟨l, hl⟩ := Option.isSome_iff_exists.1 hen
+  have hmem : l ∈ sh.store := List.mem_of_find?_eq_some hl
+  refine ⟨{ E with found := (j.a, l.id) :: E.found }, by simp [evsOf, runOn, Events.step, hl], ?_, hLT,
+    ⟨hG.dur, hG.pend, hG.lt, hG.txS, hG.txQ⟩,
+    fun b hb => ⟨fun _ h => h, fun _ h => .inl h, fun _ h => h, rfl, by simp [foundOf, find_cons_ne _ _ _ _ hb], rfl⟩⟩
+  simp only [effSh, effRg, hl]
+  exact { hL with
+    fnd := by simp [foundOf]
+    fndS := fun _ => ⟨l, rfl, hmem⟩
+    kOk := fun h => (by cases h)
+    idOk := fun h => (by cases h)
+    pub := fun h => (by rw [hc.1] at h; cases h)
+    ansI := fun h => (by rw [hc.2] at h; cases h)
+    ansP := hL.ansP }
+
+theorem step_alloc (o : Outcome) (v : Via) (hph : estep' j.ep ph (.act .allocTxid o v) = some ph') :
+    StepOK dry isTxKind sh E j rg (.act .allocTxid o v) ph' := by
+  simp only [estep'] at hph
+  split at hph
+  · cases hph
+  rename_i hal
+  have hal : ph.al = false := by simpa using hal
+  obtain rfl := Option.some.inj hph
+  refine ⟨E, rfl, { hL with }, ?_, ⟨hG.dur, hG.pend, hG.lt, hG.txS, hG.txQ⟩, fun b _ => ⟨fun _ h => h, fun _ h => .inl h, fun _ h => h, rfl, rfl, rfl⟩⟩
+  simp only [LT, hal, effSh] at hLT ⊢
+  simp at hLT ⊢
+  omega
+
+theorem step_stamp (o : Outcome) (v : Via) (hph : estep' j.ep ph (.act .stampTxid o v) = some ph') :
+    StepOK dry isTxKind sh E j rg (.act .stampTxid o v) ph' := by
+  simp only [estep'] at hph
+  split at hph
+  · rename_i hc
+    simp only [Bool.and_eq_true, decide_eq_true_eq] at hc
+    obtain rfl := Option.some.inj hph
+    refine ⟨E, rfl, ?_, hLT, ⟨hG.dur, hG.pend, hG.lt, hG.txS, hG.txQ⟩, fun b _ => frame_refl sh E b⟩
+    exact { hL with
+      tx := fun _ => rfl
+      pkS := fun h => (by rw [hc.1] at h; cases h)
+      pkR := fun h => (by rw [hc.1] at h; cases h)
+      ansP := fun h => (by rw [hc.2] at h; cases h) }
+  · cases hph
+
+theorem step_peek (o : Outcome) (v : Via) (hph : estep' j.ep ph (.act .peekTxid o v) = some ph') :
+    StepOK dry isTxKind sh E j rg (.act .peekTxid o v) ph' := by
+  simp only [estep'] at hph
+  split at hph
+  · rename_i hc
+    simp only [Bool.and_eq_true, decide_eq_true_eq, Bool.not_eq_true'] at hc
+    obtain rfl := Option.some.inj hph
+    have hlt : sh.lastTx = E.lastTx := by simpa [LT, hc.1.2] using hLT
+    refine ⟨E, rfl, ?_, hLT, ⟨hG.dur, hG.pend, hG.lt, hG.txS, hG.txQ⟩, fun b _ => frame_refl sh E b⟩
+    exact { hL with
+      tx := fun _ => rfl
+      pkS := fun _ => ⟨(sh.lastTx + 1).toNat, rfl, by have := hG.lt; rw [hlt]; omega⟩
+      pkR := fun h => (by cases h)
+      ansP := fun h => (by rw [hc.2] at h; cases h) }
+  · cases hph
+
+
+theorem step_chain (o : Outcome) (v : Via) (hph : estep' j.ep ph (.act .chainLog o v) = some ph') :
+    StepOK dry isTxKind sh E j rg (.act .chainLog o v) ph' := by
+  simp only [estep'] at hph
+  split at hph
+  · rename_i hc
+    simp only [Bool.and_eq_true, Bool.not_eq_true', Bool.or_eq_true] at hc
+    obtain rfl := Option.some.inj hph
+    have happ := hc.1
+    refine ⟨E, rfl, ?_, hLT, ⟨hG.dur, hG.pend, hG.lt, hG.txS, hG.txQ⟩, fun b _ => ⟨fun _ h => h, fun _ h => .inl h, fun _ h => h, rfl, rfl, rfl⟩⟩
+    have hdur : ph.dur = false := by
+      cases h : ph.dur with
+      | false => rfl
+      | true => have := hL.durApp h; rw [happ] at this; cases this
+    exact { hL with
+      ch0 := fun h => (by cases h)
+      ch1 := fun _ => ⟨_, rfl, rfl, (by
+        intro hk; simp [Job.content, hk]), (by
+        intro htx
+        rcases hc.2 with h | h
+        · exact hL.tx h
+        · rw [isTxEp_eq j hj.kind, htx] at h; cases h)⟩
+      mine := by rw [hL.mine]; simp [happ]
+      appq := fun h => (by rw [happ] at h; cases h)
+      dur := fun h => (by rw [hdur] at h; cases h)
+      pub := fun h => (by
+        obtain ⟨e, he, l, h1, h2⟩ := hL.pub h
+        have h3 : rg.found = some l := by simpa [happ] using h2
+        refine ⟨e, he, l, h1, ?_⟩
+        simp only [happ, Bool.false_eq_true, if_false]
+        exact h3) }
+  · cases hph
+
+theorem step_append (og : String) (cs : List String) (o : Outcome) (v : Via)
+    (hph : estep' j.ep ph (.act (.append og cs) o v) = some ph') :
+    StepOK dry isTxKind sh E j rg (.act (.append og cs) o v) ph' := by
+  simp only [estep'] at hph
+  split at hph
+  · rename_i hc
+    simp only [Bool.and_eq_true, decide_eq_true_eq, Bool.not_eq_true'] at hc
+    obtain ⟨⟨⟨⟨⟨hog, hdry⟩, hch⟩, happ⟩, hpub⟩, hpk⟩ := hc
+    obtain rfl := Option.some.inj hph
+    subst hog
+    obtain ⟨l, hl, hown⟩ := hL.ch1 hch
+    have hd : dry j.a = false := by rw [← hj.dry]; exact hL.dry _ hdry
+    have hdur : ph.dur = false := by
+      cases h : ph.dur with
+      | false => rfl
+      | true => have := hL.durApp h; rw [happ] at this; cases this
+    have hlt : -1 ≤ sh.lastTx := by
+      have := hG.lt
+      unfold LT at hLT
+      split at hLT <;> omega
+    refine ⟨{ E with mine := (j.a, l) :: E.mine, pending := E.pending ++ [l], lastTx := sh.lastTx },
+      by simp [evsOf, runOn, Events.step, hd, hl], ?_, by simp [LT, effSh], ⟨hG.dur, by simp [effSh, hG.pend, hl], hlt, hG.txS, ?_⟩, ?_⟩
+    · simp only [effSh, effRg, if_true, hl, Option.getD_some]
+      exact { hL with
+        mine := by simp [mineOf, hl]
+        appq := fun _ => ⟨l, hl, .inl (by simp)⟩
+        durApp := fun _ => rfl
+        dur := fun h => (by rw [hdur] at h; cases h)
+        pkS := fun h => (by rw [hpk] at h; cases h)
+        pub := fun h => (by rw [hpub] at h; cases h) }
+    · intro q hq
+      simp only [effSh, if_true, hl, Option.getD_some, List.mem_append, List.mem_singleton] at hq
+      rcases hq with hq | rfl
+      · exact hG.txQ q hq
+      · intro hk
+        apply hown.2.2
+        have hk' : l.kind = .create ∨ l.kind = .revert := hk
+        unfold Job.isTx
+        rw [← hown.1]
+        rcases hk' with h | h <;> simp [h]
+    · intro b hb
+      refine ⟨fun _ h => h, fun q h => .inl (by simp [effSh, h]), fun _ h => h, by simp [mineOf, find_cons_ne _ _ _ _ hb], rfl, rfl⟩
+  · cases hph
+
+theorem step_wait (c : String) (o : Outcome) (v : Via) (hen : enabled sh j rg (.act (.wait c) o v) = true)
+    (hph : estep' j.ep ph (.act (.wait c) o v) = some ph') :
+    StepOK dry isTxKind sh E j rg (.act (.wait c) o v) ph' := by
+  simp only [estep'] at hph
+  split at hph
+  · rename_i hc
+    simp only [Bool.and_eq_true, decide_eq_true_eq] at hc
+    obtain rfl := Option.some.inj hph
+    have hq : sh.queue.any (fun q => q.1 = j.a) = false := by simpa [enabled, hc.1] using hen
+    refine ⟨E, rfl, ?_, hLT, hG, fun b _ => frame_refl sh E b⟩
+    exact { hL with
+      durApp := fun _ => hc.2
+      dur := fun _ => (by
+        obtain ⟨l, h1, h2⟩ := hL.appq hc.2
+        refine ⟨l, h1, ?_⟩
+        rcases h2 with h2 | h2
+        · have := List.any_eq_false.1 hq _ h2
+          simp at this
+        · exact h2) }
+  · obtain rfl := Option.some.inj hph
+    exact ⟨E, rfl, hL, hLT, hG, fun b _ => frame_refl sh E b⟩
+
+theorem step_answer (pv : Prov) (o : Outcome) (v : Via) (hph : estep' j.ep ph (.act (.answer pv) o v) = some ph') :
+    StepOK dry isTxKind sh E j rg (.act (.answer pv) o v) ph' := by
+  simp only [estep'] at hph
+  obtain rfl := Option.some.inj hph
+  refine ⟨E, rfl, ?_, hLT, hG, fun b _ => frame_refl sh E b⟩
+  exact { hL with
+    ansI := fun h => (by
+      simp only [ansOf] at h
+      split at h
+      · cases h
+      · split at h
+        · rename_i h1 h2; simp [effRg, logOfOrigin, h2]
+        · cases h)
+    ansP := fun h => (by
+      simp only [ansOf] at h
+      split at h
+      · cases h
+      · split at h
+        · cases h
+        · rename_i h1 h2; simp [effRg, logOfOrigin, h1, h2]) }
 
 end
 
